@@ -2,18 +2,28 @@
 From Aelys Require Import Base.Tactics Extracted.AsiTokens Model.Asi.
 
 (* ------------------------------------------------------------------ the else lookahead *)
-Lemma is_else_next_app r t1 t2 :
-  is_else_next t1 = is_else_next t2 -> is_else_next (r ++ t1) = is_else_next (r ++ t2).
+(* the lookahead over r ++ t depends on t only through the lookahead over t in the comment
+   mode the scanner is in after r *)
+Lemma is_else_next_app : forall r c t1 t2,
+  is_else_next_c (mode_after c r) t1 = is_else_next_c (mode_after c r) t2 ->
+  is_else_next_c c (r ++ t1) = is_else_next_c c (r ++ t2).
 Proof.
-  intro H. induction r as [|p r IH]; [exact H|].
-  destruct p; cbn [app is_else_next]; try reflexivity; exact IH.
+  induction r as [|p r IH]; intros c t1 t2 H; [exact H|].
+  destruct p as [k| | | |]; cbn [app is_else_next_c mode_after] in *.
+  - destruct c; [apply IH; exact H|reflexivity].
+  - apply IH; exact H.
+  - destruct c; apply IH; exact H.
+  - destruct c; apply IH; exact H.
+  - destruct c; apply IH; exact H.
 Qed.
 
-Lemma is_else_next_skip ws t : forallb blank_or_nl ws = true -> is_else_next (ws ++ t) = is_else_next t.
+(* after a newline, a run of blanks and newlines is invisible to the lookahead *)
+Lemma is_else_next_skip_false ws t : forallb blank_or_nl ws = true ->
+  is_else_next_c false (ws ++ t) = is_else_next_c false t.
 Proof.
   induction ws as [|p ws IH]; intro H; [reflexivity|].
   cbn [forallb] in H. apply andb_true_iff in H as [Hp Hws].
-  destruct p; cbn [blank_or_nl] in Hp; try discriminate; cbn [app is_else_next]; exact (IH Hws).
+  destruct p; cbn [blank_or_nl] in Hp; try discriminate; cbn [app is_else_next_c]; exact (IH Hws).
 Qed.
 
 Lemma nl_inserts_ext st r1 r2 : is_else_next r1 = is_else_next r2 -> nl_inserts st r1 = nl_inserts st r2.
@@ -60,16 +70,29 @@ Proof.
   - cbn [app scan out_of state_at]. destruct c; apply IH.
 Qed.
 
+(* the comment mode the scanner reaches does not depend on the continuation *)
+Lemma state_at_mode : forall l1 st c tail, snd (state_at st c l1 tail) = mode_after c l1.
+Proof.
+  induction l1 as [|p r IH]; intros st c tail; [reflexivity|].
+  destruct p as [k| | | |]; cbn [state_at mode_after].
+  - destruct c; apply IH.
+  - apply IH.
+  - destruct c; apply IH.
+  - destruct c; apply IH.
+  - destruct c; apply IH.
+Qed.
+
 Lemma prefix_tail_irrelevant : forall l1 st c t1 t2,
-  is_else_next t1 = is_else_next t2 ->
+  is_else_next_c (mode_after c l1) t1 = is_else_next_c (mode_after c l1) t2 ->
   out_of st c l1 t1 = out_of st c l1 t2 /\ state_at st c l1 t1 = state_at st c l1 t2.
 Proof.
   induction l1 as [|p r IH]; intros st c t1 t2 H; [split; reflexivity|].
-  pose proof (is_else_next_app r t1 t2 H) as Hr.
-  destruct p as [k| | | |]; cbn [out_of state_at].
+  destruct p as [k| | | |]; cbn [out_of state_at mode_after] in *.
   - destruct c; [apply IH; exact H|].
     destruct (IH (after_tok st k) false t1 t2 H) as [A B]. rewrite A, B. split; reflexivity.
-  - rewrite (nl_inserts_ext st _ _ Hr), (after_nl_ext st _ _ Hr).
+  - assert (Hr : is_else_next (r ++ t1) = is_else_next (r ++ t2)).
+    { unfold is_else_next. apply is_else_next_app. exact H. }
+    rewrite (nl_inserts_ext st _ _ Hr), (after_nl_ext st _ _ Hr).
     destruct (IH (after_nl st (r ++ t2)) false t1 t2 H) as [A B].
     destruct (IH st false t1 t2 H) as [A' B'].
     rewrite A, B, A'. split; reflexivity.
@@ -78,10 +101,10 @@ Proof.
   - destruct c; apply IH; exact H.
 Qed.
 
-(* replacing the continuation by one that looks the same to the else-lookahead and is
-   scanned the same from the reached state gives the same token stream *)
+(* replacing the continuation by one that looks the same to the else-lookahead (in the comment
+   mode reached) and is scanned the same from the reached state gives the same token stream *)
 Lemma asi_replace_tail l1 t1 t2 :
-  is_else_next t1 = is_else_next t2 ->
+  is_else_next_c (mode_after false l1) t1 = is_else_next_c (mode_after false l1) t2 ->
   (let '(st, c) := state_at st0 false l1 t1 in scan st c t1 = scan st c t2) ->
   asi (l1 ++ t1) = asi (l1 ++ t2).
 Proof.
@@ -91,11 +114,36 @@ Proof.
   rewrite S. reflexivity.
 Qed.
 
+(* the same with the lookahead condition for both comment modes *)
+Lemma asi_replace_tail_any l1 t1 t2 :
+  (forall c, is_else_next_c c t1 = is_else_next_c c t2) ->
+  (let '(st, c) := state_at st0 false l1 t1 in scan st c t1 = scan st c t2) ->
+  asi (l1 ++ t1) = asi (l1 ++ t2).
+Proof. intros H S. apply asi_replace_tail; [apply H|exact S]. Qed.
+
+(* ... and when the scanner is known not to be inside a comment at that point *)
+Lemma asi_replace_tail_code l1 t1 t2 :
+  snd (state_at st0 false l1 t1) = false ->
+  is_else_next t1 = is_else_next t2 ->
+  (let '(st, c) := state_at st0 false l1 t1 in scan st c t1 = scan st c t2) ->
+  asi (l1 ++ t1) = asi (l1 ++ t2).
+Proof.
+  intros M H S. apply asi_replace_tail; [|exact S].
+  rewrite state_at_mode in M. rewrite M. exact H.
+Qed.
+
 (* ------------------------------------------------------------------ the layout theorems *)
 Lemma indentation_lemma l1 l2 : asi (l1 ++ Blank :: l2) = asi (l1 ++ l2).
 Proof.
-  apply asi_replace_tail; [reflexivity|].
+  apply asi_replace_tail_any; [intros []; reflexivity|].
   destruct (state_at st0 false l1 (Blank :: l2)) as [st c].
+  cbn [scan]. destruct c; reflexivity.
+Qed.
+
+Lemma block_comment_lemma l1 l2 : asi (l1 ++ BlockComment :: l2) = asi (l1 ++ l2).
+Proof.
+  apply asi_replace_tail_any; [intros []; reflexivity|].
+  destruct (state_at st0 false l1 (BlockComment :: l2)) as [st c].
   cbn [scan]. destruct c; reflexivity.
 Qed.
 
@@ -108,22 +156,16 @@ Proof.
   cbn [forallb] in Hws. apply andb_true_iff in Hws as [Hp Hws].
   destruct p; cbn [blank_or_nl] in Hp; try discriminate; cbn [app scan].
   - assert (E : nl_inserts st (ws ++ l) = false).
-    { rewrite (nl_inserts_ext st (ws ++ l) l (is_else_next_skip ws l Hws)). exact Hn. }
+    { rewrite (nl_inserts_ext st (ws ++ l) l (is_else_next_skip_false ws l Hws)). exact Hn. }
     rewrite E. apply IH; assumption.
   - apply IH; assumption.
-Qed.
-
-Lemma nl_inserts_after st r l : nl_inserts (after_nl st r) l = false \/ nl_inserts st r = false.
-Proof.
-  unfold after_nl. destruct (nl_inserts st r) eqn:E; [left|right; reflexivity].
-  unfold nl_inserts. reflexivity.
 Qed.
 
 Lemma blank_lines_lemma l1 ws l2 :
   forallb blank_or_nl ws = true -> asi (l1 ++ NL :: ws ++ l2) = asi (l1 ++ NL :: l2).
 Proof.
-  intro Hws. pose proof (is_else_next_skip ws l2 Hws) as He.
-  apply asi_replace_tail; [cbn [is_else_next]; exact He|].
+  intro Hws. pose proof (is_else_next_skip_false ws l2 Hws) as He.
+  apply asi_replace_tail_any; [intros []; cbn [is_else_next_c]; exact He|].
   destruct (state_at st0 false l1 (NL :: ws ++ l2)) as [st c].
   cbn [scan]. rewrite (nl_inserts_ext st (ws ++ l2) l2 He), (after_nl_ext st (ws ++ l2) l2 He).
   destruct (nl_inserts st l2) eqn:E.
@@ -138,7 +180,10 @@ Lemma explicit_semicolon_lemma l1 l2 :
   is_else_next l2 = false ->
   asi (l1 ++ NL :: l2) = asi (l1 ++ Tok TSemicolon :: l2).
 Proof.
-  intros Hst He. apply asi_replace_tail; [cbn [is_else_next is_else]; exact He|].
+  intros Hst He.
+  assert (M : snd (state_at st0 false l1 (NL :: l2)) = false).
+  { destruct (state_at st0 false l1 (NL :: l2)) as [st c]. destruct Hst as [_ [_ Hc]]. exact Hc. }
+  apply asi_replace_tail_code; [exact M|unfold is_else_next in *; cbn [is_else_next_c is_else]; exact He|].
   destruct (state_at st0 false l1 (NL :: l2)) as [st c]. destruct Hst as [Hp [Hd Hc]]. subst c.
   cbn [scan emit app]. unfold nl_inserts, after_nl, nl_inserts, after_tok.
   rewrite Hp, Hd, He. cbn. reflexivity.
@@ -148,86 +193,58 @@ Lemma newline_in_parens_lemma l1 l2 :
   (let '(st, c) := state_at st0 false l1 (NL :: l2) in (0 < depth st)%nat /\ c = false) ->
   asi (l1 ++ NL :: l2) = asi (l1 ++ l2).
 Proof.
-  intro Hst. apply asi_replace_tail; [reflexivity|].
+  intro Hst.
+  assert (M : snd (state_at st0 false l1 (NL :: l2)) = false).
+  { destruct (state_at st0 false l1 (NL :: l2)) as [st c]. destruct Hst as [_ Hc]. exact Hc. }
+  apply asi_replace_tail_code; [exact M|reflexivity|].
   destruct (state_at st0 false l1 (NL :: l2)) as [st c]. destruct Hst as [Hd Hc]. subst c.
   cbn [scan]. unfold nl_inserts.
   destruct (depth st) as [|d] eqn:D; [lia|].
   cbn [Nat.eqb]. rewrite andb_false_r. reflexivity.
 Qed.
 
-(* a comment on a line of its own, after a newline *)
+(* a comment on a line of its own, after a newline: no guard since the lookahead skips it *)
 Lemma scan_comment_line st c l2 :
-  is_else_next l2 = false ->
   scan st c (NL :: LineComment :: NL :: l2) = scan st c (NL :: l2).
 Proof.
-  intro He. cbn [scan].
-  assert (E1 : nl_inserts st (LineComment :: NL :: l2) = nl_inserts st l2).
-  { unfold nl_inserts. cbn [is_else_next]. rewrite He. reflexivity. }
-  assert (A1 : after_nl st (LineComment :: NL :: l2) = after_nl st l2).
-  { unfold after_nl. rewrite E1. reflexivity. }
+  cbn [scan].
+  assert (E1 : nl_inserts st (LineComment :: NL :: l2) = nl_inserts st l2) by reflexivity.
+  assert (A1 : after_nl st (LineComment :: NL :: l2) = after_nl st l2) by reflexivity.
   rewrite E1, A1. destruct (nl_inserts st l2) eqn:E.
   - f_equal. unfold after_nl. rewrite E. unfold nl_inserts at 1. cbn [pending andb]. reflexivity.
   - reflexivity.
 Qed.
 
-Lemma comment_line_guarded_lemma l1 l2 :
-  is_else_next l2 = false ->
+Lemma comment_line_lemma l1 l2 :
   asi (l1 ++ NL :: LineComment :: NL :: l2) = asi (l1 ++ NL :: l2).
 Proof.
-  intro He. apply asi_replace_tail; [cbn [is_else_next]; symmetry; exact He|].
+  apply asi_replace_tail_any; [intros []; reflexivity|].
   destruct (state_at st0 false l1 (NL :: LineComment :: NL :: l2)) as [st c].
-  apply scan_comment_line. exact He.
+  apply scan_comment_line.
 Qed.
 
 (* a comment at the end of a line *)
-Lemma trailing_comment_guarded_lemma l1 l2 :
-  is_else_next l2 = false ->
+Lemma trailing_comment_lemma l1 l2 :
   asi (l1 ++ LineComment :: NL :: l2) = asi (l1 ++ NL :: l2).
 Proof.
-  intro He. apply asi_replace_tail; [cbn [is_else_next]; symmetry; exact He|].
+  apply asi_replace_tail_any; [intros []; reflexivity|].
   destruct (state_at st0 false l1 (LineComment :: NL :: l2)) as [st c].
   cbn [scan]. destruct c; reflexivity.
 Qed.
 
-(* ... and when the comment directly follows a token, the lookahead of no earlier newline can
-   reach it, so no guard is needed *)
-Lemma trailing_comment_after_token_lemma l1 k l2 :
-  asi (l1 ++ Tok k :: LineComment :: NL :: l2) = asi (l1 ++ Tok k :: NL :: l2).
-Proof.
-  apply asi_replace_tail; [reflexivity|].
-  destruct (state_at st0 false l1 (Tok k :: LineComment :: NL :: l2)) as [st c].
-  cbn [scan]. destruct c; reflexivity.
-Qed.
-
-(* REFUTED in general: `}` NL `// c` NL `else {}`  gets a semicolon before `else` *)
-Lemma comment_before_else_refuted_lemma :
-  exists l1 l2,
-    asi (l1 ++ NL :: LineComment :: NL :: l2) <> asi (l1 ++ NL :: l2)
-    /\ asi (l1 ++ NL :: l2) = [TIf; TTrue; TLBrace; TRBrace; TElse; TLBrace; TRBrace; TSemicolon; TEof]
-    /\ asi (l1 ++ NL :: LineComment :: NL :: l2)
-       = [TIf; TTrue; TLBrace; TRBrace; TSemicolon; TElse; TLBrace; TRBrace; TSemicolon; TEof].
-Proof.
-  exists [Tok TIf; Blank; Tok TTrue; Blank; Tok TLBrace; Tok TRBrace],
-         [Tok TElse; Blank; Tok TLBrace; Tok TRBrace].
-  vm_compute. split; [discriminate|split; reflexivity].
-Qed.
-
-(* REFUTED: inside a call's parentheses a newline between two statements of a lambda body is
-   NOT a statement separator although an explicit `;` is:  f(fn(x){ a NL b })  *)
-Lemma newline_in_lambda_body_refuted_lemma :
-  exists l1 l2,
-    (let '(st, c) := state_at st0 false l1 (NL :: l2) in pending st = true /\ (0 < depth st)%nat /\ c = false)
-    /\ is_else_next l2 = false
-    /\ asi (l1 ++ NL :: l2) <> asi (l1 ++ Tok TSemicolon :: l2)
-    /\ asi (l1 ++ NL :: l2)
-       = [TIdentifier; TLParen; TFn; TLParen; TIdentifier; TRParen; TLBrace; TIdentifier; TIdentifier;
-          TRBrace; TRParen; TSemicolon; TEof].
-Proof.
-  exists [Tok TIdentifier; Tok TLParen; Tok TFn; Tok TLParen; Tok TIdentifier; Tok TRParen; Blank; Tok TLBrace;
-          Blank; Tok TIdentifier],
-         [Blank; Tok TIdentifier; Blank; Tok TRBrace; Tok TRParen].
-  vm_compute. repeat split; try reflexivity; try lia; discriminate.
-Qed.
+(* the defect repaired by 33a78fa, kept as a lemma about the OLD lookahead (blanks and
+   newlines only): `}` NL `// c` NL `else {}` got a semicolon before `else` *)
+Fixpoint old_is_else_next (l : list piece) : bool :=
+  match l with
+  | Blank :: r => old_is_else_next r
+  | NL :: r => old_is_else_next r
+  | Tok k :: _ => is_else k
+  | _ => false
+  end.
+Lemma old_lookahead_stopped_at_comment :
+  old_is_else_next [LineComment; NL; Tok TElse] = false
+  /\ is_else_next [LineComment; NL; Tok TElse] = true.
+Proof. split; reflexivity. Qed.
 
 (* "++" / "--" are one token exactly after a statement-ending token *)
 Lemma plusplus_lemma st :
@@ -239,8 +256,17 @@ Proof. split; reflexivity. Qed.
    semicolon itself) *)
 Lemma trailing_newline_lemma l : asi (l ++ [NL]) = asi (l ++ []).
 Proof.
-  apply asi_replace_tail; [reflexivity|].
+  apply asi_replace_tail_any; [intros []; reflexivity|].
   destruct (state_at st0 false l [NL]) as [st c].
-  cbn [scan]. unfold nl_inserts, after_nl, nl_inserts. cbn [is_else_next negb].
+  cbn [scan]. unfold nl_inserts, after_nl, nl_inserts, is_else_next. cbn [is_else_next_c negb].
   destruct (pending st) eqn:P; destruct (depth st) as [|d] eqn:D; cbn; rewrite ?P; reflexivity.
 Qed.
+
+(* ------------------------------------------------------------------ blocks inside ( and [ *)
+(* directly after `{` the depth is 0 whatever it was outside, and the matching `}` restores it *)
+Lemma brace_resets_depth st :
+  depth (after_tok st TLBrace) = 0%nat
+  /\ stack (after_tok st TLBrace) = depth st :: stack st
+  /\ depth (after_tok (after_tok st TLBrace) TRBrace) = depth st
+  /\ stack (after_tok (after_tok st TLBrace) TRBrace) = stack st.
+Proof. repeat split; reflexivity. Qed.
